@@ -76,6 +76,7 @@ def obligations(tier, seed):
         obs = pick(tabs) + pick(cols) + [o for o in locs if "nested" in o.key or "union" in o.key or "cte" in o.key or "where_in" in o.key][::2]
     else:
         obs = tabs + cols + locs
+        _nbase = len(obs)
         for k, st in tpl:
             if "/plain" in k and k.startswith("insert/") or "expr/" in k:
                 obs.append(PairOb(k, st, "ansi", "cols", 5, seed, length=3))
@@ -84,6 +85,10 @@ def obligations(tier, seed):
             sub = [(k, st) for k, st in tpl if st.kind in ("insert", "ctas") and not st.paren]
             for k, st in rnd.sample(sub, len(sub) // 3):
                 obs.append(PairOb(k, st, d, "cols", 5, seed))
+        if len(obs) > 1100:
+            # sized by wall time: every base instance, and a seeded share of the additional length / dialect instances
+            extras = obs[_nbase:]
+            obs = obs[:_nbase] + rnd.sample(extras, max(0, 1100 - _nbase))
     # every base-table name double-quoted (case kept): un-aliased quoted tables used as column qualifiers
     from lx.tree import PLACEHOLDER as _PH
 
